@@ -673,3 +673,10 @@ mod tests {
         assert_close(&x_rec, &x, 1e-12);
     }
 }
+
+#[cfg(nuts_rs_verif)]
+pub use {
+    adapt::DiagAdaptStrategy as VerifDiagAdaptStrategy,
+    adapt::MassMatrixAdaptStrategy as VerifMassMatrixAdaptStrategy,
+    diagonal::DiagMassMatrix as VerifDiagMassMatrix, low_rank::LowRankMassMatrix as VerifLowRankMassMatrix,
+};
